@@ -74,8 +74,57 @@ fn main() {
         }
         None => generate(prop, seed, thorough),
     };
+    crash_report::install();
     for (i, input) in inputs.iter().enumerate() {
+        crash_report::set_current(input);
         run_case(prop, i, input);
+    }
+}
+
+/// A crash of the process (SIGSEGV / SIGBUS / SIGABRT / SIGILL: invalid free, stack overflow, abort) names the input that
+/// was being run: the handler writes "CRASHED-ON <signal> <input json>" to stderr with write(2) only, then lets the default
+/// action kill the process.  tools/check.py turns that line into a violation with the input.
+mod crash_report {
+    use std::sync::atomic::{AtomicPtr, AtomicUsize, Ordering};
+    static CUR: AtomicPtr<u8> = AtomicPtr::new(std::ptr::null_mut());
+    static LEN: AtomicUsize = AtomicUsize::new(0);
+    pub fn set_current(input: &serde_json::Value) {
+        let mut s = serde_json::to_string(input).unwrap_or_default().into_bytes();
+        s.push(b'\n');
+        let b = s.into_boxed_slice();
+        let len = b.len();
+        let p = Box::into_raw(b) as *mut u8;
+        let (op, ol) = (CUR.load(Ordering::SeqCst), LEN.load(Ordering::SeqCst));
+        LEN.store(0, Ordering::SeqCst);
+        CUR.store(p, Ordering::SeqCst);
+        LEN.store(len, Ordering::SeqCst);
+        if !op.is_null() { unsafe { drop(Box::from_raw(std::ptr::slice_from_raw_parts_mut(op, ol))) }; }
+    }
+    extern "C" fn on_signal(sig: libc::c_int) {
+        unsafe {
+            let head: &[u8] = match sig { libc::SIGSEGV => b"\nCRASHED-ON SIGSEGV ", libc::SIGBUS => b"\nCRASHED-ON SIGBUS ", libc::SIGABRT => b"\nCRASHED-ON SIGABRT ", _ => b"\nCRASHED-ON SIGNAL " };
+            libc::write(2, head.as_ptr() as *const libc::c_void, head.len());
+            let (p, l) = (CUR.load(Ordering::SeqCst), LEN.load(Ordering::SeqCst));
+            if !p.is_null() && l > 0 { libc::write(2, p as *const libc::c_void, l); }
+            libc::signal(sig, libc::SIG_DFL);
+            libc::raise(sig);
+        }
+    }
+    pub fn install() {
+        unsafe {
+            // an alternate stack, so that a stack overflow can still be reported
+            let size = 1 << 16;
+            let stack = Box::leak(vec![0u8; size].into_boxed_slice());
+            let ss = libc::stack_t { ss_sp: stack.as_mut_ptr() as *mut libc::c_void, ss_flags: 0, ss_size: size };
+            libc::sigaltstack(&ss, std::ptr::null_mut());
+            for sig in [libc::SIGSEGV, libc::SIGBUS, libc::SIGABRT, libc::SIGILL] {
+                let mut sa: libc::sigaction = std::mem::zeroed();
+                sa.sa_sigaction = on_signal as usize;
+                sa.sa_flags = libc::SA_ONSTACK | libc::SA_NODEFER;
+                libc::sigemptyset(&mut sa.sa_mask);
+                libc::sigaction(sig, &sa, std::ptr::null_mut());
+            }
+        }
     }
 }
 
